@@ -9,6 +9,7 @@ import (
 	"bytes"
 	"crypto/aes"
 	"crypto/cipher"
+	"encoding/binary"
 	"encoding/hex"
 	"fmt"
 	"hash/fnv"
@@ -31,9 +32,12 @@ func init() {
 		Corpus:     corpus,
 		Impl:       impl,
 		Check:      check,
+		Shrink:     shrink,
 		NonTrivial: nonTrivial,
 		Rule: "1-5 self-contained calls per case (length helpers, PKCS7/PKCS5 pad+unpad, AESCBCEncrypt/Decrypt and AESGCMEncrypt/Decrypt in the fresh and in-place layouts; " +
 			"keys 16/24/32 and invalid sizes, plaintexts 0..80 bytes biased to block boundaries, near-valid paddings, truncated/bit-flipped ciphertexts); " +
+			"histories (`hist`, 4-12 calls of one process over shared buffers): key changed in place, keys with a common cheap checksum, FAMILIES of keys that agree on a part of the key " +
+			"(zero extension to another size, same first 16/24 or last 16 bytes), the nonce size / the iv changed under one key; each call judged on its own; " +
 			"non-trivial = at least one call got past the argument checks (output `ok …` or a padding / authentication error); distinct by hash of the lines",
 		Classify: classify,
 		Parallel: true,
@@ -194,14 +198,39 @@ func impl(c core.Case) []string {
 
 var implMu sync.RWMutex
 
-// warmUp: one call of each helper family with arguments no case uses (own buffers).
+// warmUp: calls of each helper family with arguments no case uses (own buffers): first
+// flushKeys calls per family under keys NEVER USED BEFORE in this process (a counter feeds them),
+// of the three sizes and several nonce sizes — every one a miss in any memo of expanded keys /
+// AEADs, so a bounded memo (LRU, FIFO, wipe-when-full; up to flushKeys entries) no longer holds
+// anything an earlier case put there — then one call per family under fixed keys, which
+// displaces a one-entry memo deterministically.
+const flushKeys = 160
+
+var warmCtr uint64
+
 func warmUp() {
+	d := make([]byte, 32)
+	iv := make([]byte, 16)
+	for i := 0; i < flushKeys; i++ {
+		warmCtr++
+		k := make([]byte, []int{16, 24, 32}[i%3])
+		// never all-zero in any 8-byte part, never equal to a key a generator makes (tagged)
+		for j := 0; j < len(k); j += 8 {
+			binary.LittleEndian.PutUint64(k[j:], (warmCtr*0x9e3779b97f4a7c15)^(uint64(j+1)*0xd6e8feb86659fd93)|1)
+		}
+		nonce := iv[:[]int{12, 12, 8, 16, 13}[i%5]]
+		_ = cryptz.AESGCMEncrypt(d[:16], nil, k, nonce, nil)
+		_ = cryptz.AESCBCEncrypt(d[:16], nil, k, iv)
+		if i%8 == 0 {
+			_ = cryptz.AESGCMDecrypt(d[:0], d[:16], k, nonce, nil)
+			_, _ = cryptz.AESCBCDecrypt(d[16:], d[:16], k, iv)
+		}
+	}
 	k := bytes.Repeat([]byte{0x5a}, 32)
-	d := make([]byte, 16)
-	_ = cryptz.AESCBCEncrypt(d, nil, k, make([]byte, 16))
-	_, _ = cryptz.AESCBCDecrypt(make([]byte, 16), d, bytes.Repeat([]byte{0x5b}, 24), make([]byte, 16))
-	_ = cryptz.AESGCMEncrypt(d, nil, bytes.Repeat([]byte{0x5c}, 16), make([]byte, 12), nil)
-	_ = cryptz.AESGCMDecrypt(d[:0], d, bytes.Repeat([]byte{0x5d}, 32), make([]byte, 12), nil)
+	_ = cryptz.AESCBCEncrypt(d[:16], nil, k, iv)
+	_, _ = cryptz.AESCBCDecrypt(make([]byte, 16), d[:16], bytes.Repeat([]byte{0x5b}, 24), iv)
+	_ = cryptz.AESGCMEncrypt(d[:16], nil, bytes.Repeat([]byte{0x5c}, 16), make([]byte, 12), nil)
+	_ = cryptz.AESGCMDecrypt(d[:0], d[:16], bytes.Repeat([]byte{0x5d}, 32), make([]byte, 12), nil)
 }
 
 // histBufs: the caller-owned buffers of a history case.  put(i, b) overwrites backing array i
@@ -721,7 +750,7 @@ func stdPad16(pt []byte) []byte {
 
 func isErr(o string) bool { return strings.HasPrefix(o, "err:") && !strings.HasPrefix(o, "err:?") }
 
-func check(c core.Case, out []string) *core.Failure {
+func checkRaw(c core.Case, out []string) *core.Failure {
 	offContract := c.Tag == "offcontract"
 	for i := 1; i < len(c.Lines); i++ {
 		t := core.Toks(c.Lines[i])
@@ -979,11 +1008,64 @@ func nonTrivial(c core.Case, out []string) bool {
 	return false
 }
 
+// keyRelation names the PART two different keys agree on ("" when none): what a process-wide
+// memo keyed on that part would confuse (mirrors the identities of Model/C08Memo.lean).
+func keyRelation(a, b []byte) string {
+	if bytes.Equal(a, b) || !stdKeyOK(a) || !stdKeyOK(b) {
+		return ""
+	}
+	trim := func(x []byte) []byte { return bytes.TrimRight(x, "\x00") }
+	switch {
+	case bytes.Equal(trim(a), trim(b)):
+		return "zero-extension"
+	case len(a) >= 24 && len(b) >= 24 && bytes.Equal(a[:24], b[:24]):
+		return "same-first24"
+	case bytes.Equal(a[:16], b[:16]):
+		return "same-first16"
+	case bytes.Equal(a[len(a)-16:], b[len(b)-16:]):
+		return "same-last16"
+	}
+	return ""
+}
+
 func classify(c core.Case, out []string) []string {
 	var ls []string
+	var prevKey, prevNonce, prevIV []byte
 	for i := 1; i < len(c.Lines); i++ {
 		t := core.Toks(c.Lines[i])
 		o := out[i]
+		if c.Tag == "history" && len(t) >= 5 {
+			switch t[0] {
+			case "cbcenc", "cbcdec", "gcmenc", "gcmdec":
+				key, _ := unhx(t[2])
+				x, _ := unhx(t[3])
+				if stdKeyOK(key) {
+					if rel := keyRelation(prevKey, key); rel != "" {
+						ls = append(ls, "hist:consecutive-keys-"+rel)
+						if len(prevKey) != len(key) {
+							ls = append(ls, "hist:related-keys-of-different-sizes")
+						}
+					}
+					if t[0][0] == 'g' && len(x) > 0 {
+						if bytes.Equal(prevKey, key) && prevNonce != nil && len(prevNonce) != len(x) {
+							ls = append(ls, "hist:same-key-other-nonce-size")
+						}
+						prevNonce = x
+					}
+					if t[0][0] == 'c' && len(x) == 16 {
+						if bytes.Equal(prevKey, key) && prevIV != nil {
+							if bytes.Equal(prevIV, x) {
+								ls = append(ls, "hist:same-key-same-iv-again")
+							} else {
+								ls = append(ls, "hist:same-key-other-iv")
+							}
+						}
+						prevIV = x
+					}
+					prevKey = key
+				}
+			}
+		}
 		res := o
 		if k := strings.IndexByte(o, ' '); k >= 0 {
 			res = o[:k]
